@@ -192,6 +192,8 @@ def selection_docs():
     yield {"x.sol:Alpha": ca, "x.sol:Beta": cb}
     yield {"dir/x.sol:Alpha": ca, "y.sol:Beta": cb, "y.sol:Gamma": cc}
     yield {"x.sol:Alpha": ca, "x.sol:Iface": {}, "x.sol:Beta": cc}
+    # names that are prefixes / suffixes / substrings of one another, and the same name in two files
+    yield {"x.sol:Token": ca, "x.sol:MyToken": cb, "dir/y.sol:Token2": cc, "x.sol:Tok": cb}
 
 
 def setup_b(cfg):
